@@ -420,8 +420,16 @@ func writeEvidence(path, prop, tier string, seed int, pc *PropCfg, x *Exec, repo
 			samples = append(samples, o)
 		}
 	}
+	known := 0
+	for _, o := range obls {
+		if o["status"] == "known-finding" {
+			known++
+		}
+	}
 	cov := map[string]interface{}{
-		"obligations": len(obls), "discharged": discharged,
+		// obligations that fail because of a listed known finding are reported separately: they are
+		// not claimed as proved and not counted among the obligations of this proof
+		"obligations": len(obls) - known, "discharged": discharged, "obligations_failing_as_known_findings": known,
 		"checker_cmd":   fmt.Sprintf("/verif/check %s %s", prop, tier),
 		"trusted_base":  trusted,
 		"functions":     fns,
